@@ -1119,12 +1119,22 @@ package router
 //@   aftercall AcceptStream: nAsk = 0
 //@   oncall limiterAllowN: nAsk = nAsk + 1
 //@   aftercall limiterAllowN: gAdm = ret0
+//@   ghost nAcc int = 0
+//@   ghost nDisp int = 0
+//@   ghost gStream quic.Stream = nil
+//@   aftercall AcceptStream: nAcc = nAcc + (ret1 == nil ? 1 : 0)
+//@   aftercall AcceptStream: gStream = ret0
+//@   oncall go: nDisp = nDisp + 1
+//@   oncall Stream.Close?: nDisp = nDisp + 1
 //@   modifies *
+//@   ensures [C15,C18:stream-loop-ends-only-on-an-accept-error] err != nil
+//@   ensures [C15,C03:every-accepted-stream-is-handled-or-closed-once] nDisp == nAcc
 //@   callsite limiterAllowN: [C15:query-cost-charged-to-the-client] arg0 == s.r && nRemote >= 1 && arg1 == gAP.ip && arg2 == 2
-//@   callsite go: [C15:refused-query-not-handled] nAsk == 1 && gAdm == nil
+//@   callsite go: [C15:refused-query-not-handled] nAsk == 1 && gAdm == nil && capturesVar(stream)
+//@   callsite Stream.Close?: [C15:only-the-refused-stream-is-closed] arg0 == gStream && nAsk == 1 && gAdm != nil
 //@   loop 1:
 //@     modifies *
-//@     invariant s != nil && routerReady(s.r) && s.logger != nil && c != nil && nRemote >= 1 && remoteAddr == gAP
+//@     invariant s != nil && routerReady(s.r) && s.logger != nil && c != nil && nRemote >= 1 && remoteAddr == gAP && nDisp == nAcc
 
 // ---- server_http_fasthttp.go (the fasthttp variant of the DoH listener) ---------------------------------------
 // readReqMsg / HandleFastHTTP: as for the net/http variant - a decoded query or an error status, never a panic,
@@ -1231,11 +1241,18 @@ package router
 //@   ghost nAsk int = 0
 //@   aftercall Accept: gConn = ret0
 //@   aftercall Accept: nAsk = 0
+//@   ghost nAcc int = 0
+//@   ghost nDisp int = 0
+//@   aftercall Accept: nAcc = nAcc + (ret1 == nil ? 1 : 0)
+//@   oncall go: nDisp = nDisp + 1
+//@   oncall Close: nDisp = nDisp + 1
 //@   aftercall RemoteAddr?: gRemote = ret0
 //@   aftercall netAddr2NetipAddr: gAP = ret0
 //@   oncall limiterAllowN: nAsk = nAsk + 1
 //@   aftercall limiterAllowN: gAdm = ret0
 //@   modifies *
+//@   ensures [C15,C18:accept-loop-ends-only-on-an-accept-error] err != nil
+//@   ensures [C15:every-accepted-connection-is-served-or-closed-once] nDisp == nAcc
 //@   callsite RemoteAddr?: [C15:address-of-this-connection] arg0 == gConn
 //@   callsite netAddr2NetipAddr: [C15:connection-cost-charged-to-the-client] arg0 == gRemote
 //@   callsite limiterAllowN: [C15:connection-cost-charged-to-the-client] arg0 == s.r && arg1 == gAP.ip && arg2 == (s.tlsConfig != nil ? 15 : 3)
@@ -1243,7 +1260,7 @@ package router
 //@   callsite Close: [C15:only-refused-connections-are-closed] arg0 == gConn && nAsk == 1 && gAdm != nil
 //@   loop 1:
 //@     modifies *
-//@     invariant s != nil && routerReady(s.r) && s.l != nil && s.logger != nil && r == s.r
+//@     invariant s != nil && routerReady(s.r) && s.l != nil && s.logger != nil && r == s.r && nDisp == nAcc
 
 // tcpServer.handleConn (read loop of one connection): every query read is answered - either by its own
 // goroutine, or, when the connection already has maxConcurrent queries in flight or the limiter refuses the
@@ -1422,12 +1439,24 @@ package router
 //@   oncall RemoteAddr?: nRemote = nRemote + 1
 //@   aftercall RemoteAddr?: gRemote = ret0
 //@   aftercall limiterAllowN: gAdm = ret0
+//@   ghost nAcc int = 0
+//@   ghost nDisp int = 0
+//@   ghost nAsk int = 0
+//@   aftercall Accept: nAcc = nAcc + (ret1 == nil ? 1 : 0)
+//@   aftercall Accept: nAsk = 0
+//@   oncall limiterAllowN: nAsk = nAsk + 1
+//@   oncall go: nDisp = nDisp + 1
+//@   oncall CloseWithError: nDisp = nDisp + 1
 //@   modifies *
+//@   ensures [C15,C18:accept-loop-ends-only-on-an-accept-error] err != nil
+//@   ensures [C15:every-accepted-connection-is-served-or-closed-once] nDisp == nAcc
 //@   callsite netAddr2NetipAddr: [C15:connection-cost-charged-to-the-client] nRemote >= 1 && arg0 == gRemote
-//@   callsite go: [C15:refused-connection-not-served] gAdm == nil
+//@   callsite limiterAllowN: [C15:connection-cost] arg0 == s.r && arg2 == 15
+//@   callsite go: [C15:refused-connection-not-served] nAsk == 1 && gAdm == nil
+//@   callsite CloseWithError: [C15:only-refused-connections-are-closed] nAsk == 1 && gAdm != nil
 //@   loop 1:
 //@     modifies *
-//@     invariant s != nil && routerReady(s.r) && s.l != nil && s.logger != nil && r == s.r && nRemote >= 0
+//@     invariant s != nil && routerReady(s.r) && s.l != nil && s.logger != nil && r == s.r && nRemote >= 0 && nDisp == nAcc
 //@ closure quicServer.run$1
 //@   props C15
 //@   requires s != nil && routerReady(s.r) && s.logger != nil && c != nil
